@@ -239,6 +239,9 @@ def run(events, enforce=True):
         except (ValueError, IndexError, KeyError, TypeError, AttributeError, OverflowError):
             raise RejectFormat("invalid instruction")
         if skip:
+            # a section under an interface the converter does not support is left out - with its data lines (they must not
+            # wait for the next section and come out under that section's instructions)
+            pending = []
             return
         comps.append((desc, convert(pending, fmt)))
         pending = []
